@@ -10,9 +10,19 @@ def classify_crash(cr):
         if len(t) > 1:
             comp = t[1]
     err = cr.get('stderr_tail') or ''
-    if comp is None:       # the `#in` line scrolled out of the context window: take the outermost library frame
-        comp = 'SARSOP' if 'SARSOP::' in err else 'GapMin' if 'GapMin::' in err else 'C03'
+    # a report that names the solver class decides (the `#in` line can scroll out of the context window or belong to a neighbouring case)
+    if 'SARSOP::' in err:
+        comp = 'SARSOP'
+    elif 'GapMin::' in err:
+        comp = 'GapMin'
+    elif comp is None:
+        comp = 'C03'
     kind = cr['kind']
+    if kind == 'escaped-exception':      # an exception the library threw on a valid input; the `#escaped` line carries what()
+        d = cr.get('detail') or ''
+        if 'UB process failed' in d:
+            return ('GapMin', 'exception_lp_failed_in_LPInterpolation')
+        return (comp if comp != 'C03' else 'C03', 'escaped_exception')
     if kind == 'hang':
         return (comp, 'hang')
     where = ''
@@ -38,7 +48,7 @@ SPEC = {
         # algebra of the belief-MDP operator on unnormalised beliefs
         'AITB.POMDP3.mass_bstep', 'AITB.POMDP3.dotS_backupVec', 'AITB.POMDP3.Hop_mono', 'AITB.POMDP3.iterH_mono',
         # lower side: point backups, blind strategies
-        'AITB.POMDP3.pointBackup_le_qval', 'AITB.POMDP3.pointBackup_sound', 'AITB.POMDP3.pointBackup_skip_sound_partial',
+        'AITB.POMDP3.pointBackup_le_qval', 'AITB.POMDP3.pointBackup_sound',
         'AITB.POMDP3.blindStep_eq_backup', 'AITB.POMDP3.blindStep_sound', 'AITB.POMDP3.blindIter_sound',
         'AITB.POMDP3.const_le_iterH', 'AITB.POMDP3.iterH_superSol',
         # upper side: sublinearity, interpolation, FIB, QMDP, promising backup
@@ -53,7 +63,7 @@ SPEC = {
         # anytime solvers: event system, invariant, every prefix
         'AITB.POMDP3.isInterp_ge', 'AITB.POMDP3.Sound_step', 'AITB.POMDP3.anytime_sound', 'AITB.POMDP3.initial_sound',
         # bestConservativeAction as found / repaired, with the machine-checked witness
-        'AITB.POMDP3.conservativeAlpha_sound', 'AITB.POMDP3.conservativeAlpha_sound_partial', 'AITB.POMDP3.conservative_skip_witness_values',
+        'AITB.POMDP3.conservativeAlpha_sound', 'AITB.POMDP3.conservativeAlpha_src_sound', 'AITB.POMDP3.conservativeAlpha_is_backup', 'AITB.POMDP3.bestConservative_sound',
         # finite-horizon solvers, consistency of the enclosure, clamp witness, driver evaluators = reference families
         'AITB.POMDP3.backup_chain_sound', 'AITB.POMDP3.pbvi_perseus_sound', 'AITB.POMDP3.perseus_infinite_sound',
         'AITB.POMDP3.blindSub_le_mdpSuper', 'AITB.POMDP3.lowerRef_le_upperRef', 'AITB.POMDP3.blind_fast_start_unsafe_witness',
@@ -61,14 +71,28 @@ SPEC = {
         'AITB.POMDP3.weighted_form_isInterp', 'AITB.POMDP3.sawtooth_sound', 'AITB.POMDP3.lpInterp_sound',
         'AITB.POMDP3.lbClause_of_sound', 'AITB.POMDP3.ubClause_of_sound', 'AITB.POMDP3.lb_le_ub_of_sound',
         'AITB.POMDP3.iterH_shift', 'AITB.POMDP3.gap_eq', 'AITB.POMDP3.gap_vanishes', 'AITB.POMDP3.lb_le_ub',
+        # round 2: the driver's Refs wrapper, per-instance certificates (trace validation) and their checkers
+        'AITB.POMDP3.Refs_U_eq', 'AITB.POMDP3.Refs_L_eq', 'AITB.POMDP3.refs_cU_safe', 'AITB.POMDP3.refs_cL_safe', 'AITB.POMDP3.Refs_U_superSol', 'AITB.POMDP3.Refs_L_subSol',
+        'AITB.POMDP3.pointBackup_le_qval_slack', 'AITB.POMDP3.le_backup_sound_slack', 'AITB.POMDP3.le_backup_sound',
+        'AITB.POMDP3.blindSub_le_mdpSuper_slack', 'AITB.POMDP3.blindSub_sound_slack', 'AITB.POMDP3.blindSub_sound',
+        'AITB.POMDP3.blindCertOK_sound', 'AITB.POMDP3.backupCertOK_sound', 'AITB.POMDP3.certChain_sound',
+        # round 2: SARSOP::backupNode as a composition of events; bestPromisingAction<false> as modelled is an upper bound
+        'AITB.POMDP3.backupNode_lower_reach', 'AITB.POMDP3.backupNode_pool_reach', 'AITB.POMDP3.backupNode_write_reach', 'AITB.POMDP3.backupNode_sound',
+        'AITB.POMDP3.sawVal_sound', 'AITB.POMDP3.sumSaw_upper', 'AITB.POMDP3.promisingActSaw_upper', 'AITB.POMDP3.maxSaw_ge', 'AITB.POMDP3.bestPromisingSaw_upper',
+        'AITB.POMDP3.sosa_row_reconstructs', 'AITB.POMDP3.gapmin_select_reach', 'AITB.POMDP3.gapmin_round_sound',
+        'AITB.POMDP3.sawVal_isInterp', 'AITB.POMDP3.sumSaw_spec', 'AITB.POMDP3.promisingActSaw_is_poolAdd',
+        'AITB.POMDP3.lpInterp_isInterp', 'AITB.POMDP3.gapmin_ub_sound',
+        'AITB.POMDP3.pbvi_warm_sound', 'AITB.POMDP3.pbvi_warm_value',
         'AITB.POMDP3.iterHV_eq', 'AITB.POMDP3.upperRefV_eq', 'AITB.POMDP3.lowerRefV_eq',
-        'AITB.POMDP3.mW_valid', 'AITB.POMDP3.mW_ref_superSol', 'AITB.POMDP3.ΓW_sound', 'AITB.POMDP3.conservative_skip_counterexample',
+        'AITB.POMDP3.mW_valid', 'AITB.POMDP3.mW_ref_superSol', 'AITB.POMDP3.ΓW_sound',
     ],
-    'gen_obligations': ['AITB.POMDP3.src_blind_start_is_min', 'AITB.POMDP3.src_fib_start_is_max', 'AITB.POMDP3.src_fib_inner_is_max'],
+    'gen_obligations': ['AITB.POMDP3.src_blind_start_is_min', 'AITB.POMDP3.src_fib_start_is_max', 'AITB.POMDP3.src_fib_inner_is_max', 'AITB.POMDP3.src_cons_no_skip', 'AITB.POMDP3.src_saw_is_repaired'],
     'harness': 'harness/c03.cpp',
     'level': 'proof',
     'timeout': {'quick': 900, 'thorough': 1800},
     'case_timeout': 240,
+    'driver_timeout': {'quick': 1800, 'thorough': 5400},   # trace validation of ~5000 snapshots in exact rationals
+
     'classify_crash': classify_crash,
     'rule': 'one case = one (POMDP, solver) pair; 12 fixed POMDPs (Tiger, 1-state clamp witnesses, corner/face initial beliefs, all-negative rewards, two S=5 GapMin regression instances) then '
             '38 (quick) / 298 (thorough) seeded dyadic POMDPs S<=4(5) A<=3 O<=3, discounts 1/2..15/16 (and 0.9/0.95/0.3), initial belief corner/face/interior; '
